@@ -103,7 +103,7 @@ fn synchronize_jobs(
         .filter_map(|(single, activity)| activity.retrieve_job().map(|job| (job, single)))
         .filter(|(job, _)| !assigned_jobs.contains(job))
         .fold(
-            (HashMap::default(), HashSet::<Job>::default()),
+            (HashMap::default(), get_misordered_multi_jobs(route_ctx)),
             |(mut synchronized_jobs, mut invalid_multi_job_ids), (job, single)| {
                 let is_already_processed = synchronized_jobs.contains_key(&job) && job.as_single().is_some();
                 let is_invalid_multi_job = invalid_multi_job_ids.contains(&job);
@@ -147,6 +147,28 @@ fn synchronize_jobs(
         );
 
     synchronized_jobs
+}
+
+/// Returns multi jobs which sub-jobs are incomplete or visited in a not allowed order in the given route.
+/// NOTE: such job cannot be restored, so no part of it should be inserted: a delivery put before its pickup
+/// makes room for other jobs which is not there anymore once the job is removed from the tour.
+fn get_misordered_multi_jobs(route_ctx: &RouteContext) -> HashSet<Job> {
+    route_ctx
+        .route()
+        .tour
+        .all_activities()
+        .filter_map(|activity| activity.job.as_ref().zip(activity.retrieve_job()))
+        .filter_map(|(single, job)| job.as_multi().cloned().map(|multi| (single, job, multi)))
+        .fold(HashMap::<Job, (Arc<Multi>, Vec<Arc<Single>>)>::default(), |mut acc, (single, job, multi)| {
+            acc.entry(job).or_insert_with(|| (multi, Vec::default())).1.push(single.clone());
+            acc
+        })
+        .into_iter()
+        .filter(|(_, (multi, singles))| {
+            multi.jobs.len() != singles.len() || !compare_singles(multi, singles.as_slice())
+        })
+        .map(|(job, _)| job)
+        .collect()
 }
 
 fn is_activity_to_single_match(activity: &Activity, single: &Single) -> bool {
